@@ -93,7 +93,19 @@ PLOTS = {"mae": (2, ["-m", "mae", "-x", "leadtime"]),
          "pithist": (2, ["-m", "pithist"]),
          "reliability": (2, ["-m", "reliability", "-r", "5"]),
          "against": (3, ["-m", "against"]),
-         "map": (2, ["-m", "mae", "-type", "map"])}
+         "map": (2, ["-m", "mae", "-type", "map"]),
+         # the standard plot with five inputs: more lines than entries in any -lc / -ls / -ma / -lw / -ms list, lists of
+         # lengths 2 and 3 side by side (seeded change C17e: one combined style cycle of length max instead of
+         # one cycle per option). Same plot kind as "mae" for the Lean model (lean_op).
+         "mae5": (5, ["-m", "mae", "-x", "leadtime"])}
+
+
+def K(plot):
+    return "mae" if plot == "mae5" else plot
+
+
+def lean_op(op):
+    return op.replace(" mae5 ", " mae ", 1)
 LOCS = [(3, 50.0, 10.0, 12.0), (7, 52.5, 11.5, 250.0), (11, 55.0, 8.0, 40.0), (18, 47.5, 14.0, 900.0)]
 LEADS = [1, 6, 12, 24]
 DATES = [20120101, 20120102, 20120103, 20120104, 20120105, 20120106]
@@ -117,7 +129,7 @@ def _tmpdir():
         _TMP["dir"] = d
         atexit.register(shutil.rmtree, d, True)
         rng = random.Random(12345)
-        for f in range(3):
+        for f in range(5):
             with open(os.path.join(d, "in%d.txt" % f), "w") as fh:
                 fh.write("date leadtime location lat lon altitude obs fcst p5 pit\n")
                 for date in DATES:
@@ -393,7 +405,7 @@ def _annotation_columns(plot, raw):
     rows = [t.split() for t in texts]
     cand = {}
     nser = sum(len(a["series"]) for a in raw["axes"])
-    if plot == "mae":
+    if K(plot) == "mae":
         cand["score"] = ["%g" % y for a in raw["axes"] for s in a["series"] for y in s["y"]]
         cand["key"] = ["%g" % x for a in raw["axes"] for s in a["series"] for x in s["x"]]
     elif plot == "loc":
@@ -542,7 +554,7 @@ def wanted(flag, value, plot):
 
 
 def applicable(plot, flag):
-    standard = plot in ("mae", "loc")
+    standard = K(plot) in ("mae", "loc")
     if flag in ("-clabel", "-clim"):
         return plot == "map"
     if flag in ("-a", "-af", "-afs"):
@@ -550,7 +562,7 @@ def applicable(plot, flag):
     if flag in ("-lc", "-lw", "-ma", "-ms"):
         return standard or plot == "reliability"
     if flag == "-ls":
-        return plot in ("mae", "reliability")
+        return K(plot) in ("mae", "reliability")
     if flag in ("-leg", "-legfs", "-legloc"):
         return standard or plot == "reliability"
     if flag == "-sp":
@@ -695,6 +707,11 @@ def X(*vals):
     return ",".join(xr(float(v)) for v in vals)
 
 
+def _ln(rng, plot):
+    """length of a per-line style list: with five lines, lengths 2 and 3 (neither divides the other, both < 5)"""
+    return rng.choice([2, 3, 2, 3, 1, 4]) if plot == "mae5" else rng.choice([1, 2, 3])
+
+
 def gen_value(flag, rng, plot, chosen):
     n = PLOTS[plot][0]
     if flag in BOOL:
@@ -722,16 +739,16 @@ def gen_value(flag, rng, plot, chosen):
     if flag == "-legloc":
         return rng.choice(LEGLOCS)
     if flag == "-lc":
-        return ",".join(rng.choice(COLORS) for _ in range(rng.choice([1, 2, 3])))
+        return ",".join(rng.choice(COLORS) for _ in range(_ln(rng, plot)))
     if flag == "-ls":
-        return ",".join(rng.choice(["-", "--", ":", "-."]) for _ in range(rng.choice([1, 2, 3])))
+        return ",".join(rng.choice(["-", "--", ":", "-."]) for _ in range(_ln(rng, plot)))
     if flag == "-lw":
-        return X(*[rng.choice([1, 3, 2.5, 0.5, 1.3]) for _ in range(rng.choice([1, 2, 3]))])
+        return X(*[rng.choice([1, 3, 2.5, 0.5, 1.3]) for _ in range(_ln(rng, plot))])
     if flag == "-ma":
-        return ",".join(rng.choice(["o", "*", "x", "s", "^", "."]) for _ in range(rng.choice([1, 2, 3])))
+        return ",".join(rng.choice(["o", "*", "x", "s", "^", "."]) for _ in range(_ln(rng, plot)))
     if flag == "-ms":
         pool = [3, 6, 10, 12, 4.5]
-        return X(*[rng.choice(pool) for _ in range(rng.choice([1, 2, 3]))])
+        return X(*[rng.choice(pool) for _ in range(_ln(rng, plot))])
     if flag == "-gc":
         return rng.choice(["red", "0.3", "blue", "k", "g", "[0:0.5:0]", "[0.3:0:0]"])
     if flag == "-gs":
@@ -816,7 +833,7 @@ def _fmt(rng):
 
 
 def _plot(rng):
-    return rng.choice(["mae"] * 7 + ["loc"] * 2 + ["pithist"] * 3 + ["reliability"] * 3 + ["against"] * 3 + ["map"] * 2)
+    return rng.choice(["mae"] * 5 + ["mae5"] * 3 + ["loc"] * 2 + ["pithist"] * 3 + ["reliability"] * 3 + ["against"] * 3 + ["map"] * 2)
 
 
 def single_ops(rng, all_plots):
@@ -841,7 +858,7 @@ def single_ops(rng, all_plots):
                 opts.append(("-a", "1"))
             v = gen_value(f, rng, plot, chosen)
             if f == "-af":      # every annotation field the plot kind offers
-                v = "score,key" if plot == "mae" else "lat,lon,elev,location,score,key"
+                v = "score,key" if K(plot) == "mae" else "lat,lon,elev,location,score,key"
             opts.append((f, v))
             yield "figprops %s %d %s" % (plot, PLOTS[plot][0], enc_opts(opts + [("-f", "out.png")]))
 
